@@ -21,6 +21,8 @@ structure Access where
   locks  : List Lock
   atomic : Bool          -- through sync/atomic
   init   : Bool          -- inside an init-only function (object not yet shared)
+  region : Nat := 0      -- critical-section number inside `func` (0 = no lock held; ≥ 1000 = inside a
+                         -- callee of the same receiver that locks for itself)
 deriving Repr, DecidableEq
 
 /-- `a` is protected by mutex `m`: holds it, exclusively if it writes. -/
@@ -80,7 +82,7 @@ def findingOf (s f : String) : Option String :=
     fields a read of the field is a use of what it points to) happens with the named mutex held —
     exclusively when writing.  (struct, field, mutex) -/
 def requiredCoverage : List (String × String × String × List String) := [
-  ("quotaresource.quota", "allowedByReqID", "mutex", []),
+  ("quotaresource.quota", "allowedByReqID", "mutex", ["Inc", "Allowed", "Dec"]),
   ("quotaresource.concurrentStrategy", "allowedReq", "mutex", []),
   -- the plain Get/Set/Pop/Exists delegates rely on the context's own lock; the read-modify-write
   -- operations of the quota strategies must be atomic under the state's mutex:
@@ -88,7 +90,7 @@ def requiredCoverage : List (String × String × String × List String) := [
      ["AtomicIncWindow", "AtomicWindowReset", "AtomicWindowResetIn", "AtomicSAddWithMaxValuesAllowed",
       "AtomicIncr", "AtomicDecr"]),
   ("limit.RateLimitState", "groupsStateByLimiter", "mutex", []),
-  ("limit.singleRateLimitState", "counter", "mutex", []),
+  ("limit.singleRateLimitState", "counter", "mutex", ["TryToIncrement"]),
   ("limit.singleRateLimitState", "windowEndTime", "mutex", []),
   ("limit.singleRateLimitState", "spillover", "mutex", []),
   ("queue.DelayedPriorityQueue", "currentWindowCounter", "mutex", []),
@@ -101,10 +103,18 @@ def requiredCoverage : List (String × String × String × List String) := [
   ("processorqueue.RequestWatcher", "requestsExpireAt", "expireMapMutex", [])
 ]
 
+/-- All accesses of one function lie in ONE critical section (a read-modify-write split over two
+    lock/unlock pairs — e.g. by calling a self-locking getter first — is check-then-act, not atomic). -/
+def oneRegion (as : List Access) : Bool :=
+  match as with
+  | [] => true
+  | a :: rest => a.region != 0 && rest.all (·.region == a.region)
+
 def covered (facts : List Access) (r : String × String × String × List String) : Bool :=
   let (s, f, m, fns) := r
   let as := ((facts.filter (sameField s f)).filter (!·.init)).filter
               fun a => fns.isEmpty || fns.contains a.func
-  !as.isEmpty && as.all (protectedBy m)
+  !as.isEmpty && as.all (protectedBy m) &&
+  fns.all fun fn => oneRegion (as.filter (·.func == fn))
 
 end LunarVerif.C18
